@@ -801,7 +801,10 @@ impl Transformer {
                     env!("CARGO_PKG_VERSION")
                 )),
                 OutputEvent::Text(indent),
-                OutputEvent::Comment(format!(" Config: {:?} ", self.context.config)),
+                OutputEvent::Comment(
+                    // '--' may not appear within an XML comment
+                    format!(" Config: {:?} ", self.context.config).replace("--", "- -"),
+                ),
             ])
             .write_to(writer)?;
         }
